@@ -167,16 +167,29 @@ def run_history(job):
         except Exception as ex:
             setup_ev["single"][w] = [-1]
             tr["err"] = "single %s: %s: %s" % (w, type(ex).__name__, str(ex)[:100])
+    # every other case keeps ONE token object per keyword and uses it for every search of that keyword, without
+    # serializing it before its first use ("the token unchanged ... any repetition")
+    reuse, toks = sd % 2 == 1, {}
     for w in seq:
         exp = db_copy.get(kw[w], [])
         o = {"edbPre": dgcall(edb.serialize), "edbPost": "-", "tokPre": "-", "tokPost": "-", "inp": {}, "out": "raised", "pos": []}
         try:
-            tok = sch.TokenGen(key, kw[w])
-            o["tokPre"] = dgcall(tok.serialize)
+            if reuse and w in toks:
+                tok = toks[w]                      # the token object of the earlier search for this keyword, used again
+                o["tokPre"] = dgcall(tok.serialize)
+                lazy = False
+            else:
+                tok = sch.TokenGen(key, kw[w])
+                toks[w] = tok
+                lazy = reuse                       # not looked at (serialized) before its first use: a caller need not
+                if not lazy:
+                    o["tokPre"] = dgcall(tok.serialize)
             r = sch.Search(edb, tok).get_result_list()
             o["pos"] = positions(r, exp)
             o["out"] = "result"
             o["tokPost"] = dgcall(tok.serialize)
+            if lazy:
+                o["tokPre"] = o["tokPost"]
         except Exception as ex:
             tr["err"] = "search %s: %s: %s" % (w, type(ex).__name__, str(ex)[:100])
         o["edbPost"] = dgcall(edb.serialize)
